@@ -1,4 +1,1 @@
 package routing
-
-func (n *nodeSim) checkSprayChoice(tr *btrack, rec *sendRec) {}
-func (n *nodeSim) spraySendDone(tr *btrack, rec *sendRec)    {}
